@@ -49,6 +49,11 @@ func DecodeStrict(reader io.Reader, into any) error {
 }
 
 func isNullNode(node *yaml.Node) bool {
+	// an alias to a null value is a null value
+	if node.Kind == yaml.AliasNode && node.Alias != nil {
+		node = node.Alias
+	}
+
 	return node.Kind == yaml.ScalarNode && node.Tag == "!!null"
 }
 
@@ -78,6 +83,15 @@ func checkDocumentShape(node *yaml.Node, target reflect.Type) error {
 				return fmt.Errorf("line %d: keys must be strings", key.Line)
 			}
 
+			// a merge key (`<<: *defaults`, `<<: [*a, *b]`) brings the keys of other mappings
+			// into this one: they are checked as keys of this mapping.
+			if key.Tag == "!!merge" {
+				if err := checkMergedMappings(node.Content[i+1], target); err != nil {
+					return err
+				}
+				continue
+			}
+
 			if err := checkDocumentShape(node.Content[i+1], typeOfMember(target, key.Value)); err != nil {
 				return err
 			}
@@ -97,11 +111,51 @@ func checkDocumentShape(node *yaml.Node, target reflect.Type) error {
 				return err
 			}
 		}
-	case yaml.ScalarNode, yaml.AliasNode:
+	case yaml.AliasNode:
+		// the decoder reads what the alias stands for; an anchor that holds an alias
+		// to itself is refused by the decoder
+		if node.Alias == nil || containsNode(node.Alias, node) {
+			return nil
+		}
+
+		return checkDocumentShape(node.Alias, target)
+	case yaml.ScalarNode:
 		return nil
 	}
 
 	return nil
+}
+
+// checkMergedMappings checks the value of a merge key: a mapping, or a list of
+// mappings, each of them possibly given by an alias.
+func checkMergedMappings(node *yaml.Node, target reflect.Type) error {
+	if node.Kind != yaml.SequenceNode {
+		return checkDocumentShape(node, target)
+	}
+
+	for _, item := range node.Content {
+		if err := checkDocumentShape(item, target); err != nil {
+			return err
+		}
+	}
+
+	return nil
+}
+
+// containsNode tells whether `node` is part of the tree under `root`, without
+// following the aliases found there.
+func containsNode(root *yaml.Node, node *yaml.Node) bool {
+	if root == node {
+		return true
+	}
+
+	for _, child := range root.Content {
+		if containsNode(child, node) {
+			return true
+		}
+	}
+
+	return false
 }
 
 // typeOfMember gives the type the value of `key` is decoded into, within a
